@@ -63,18 +63,18 @@ def run(ck):
     a, p = ex["h_c06"], ex["h_c06p"]
     J = JOBS
     if ck.tier == "quick":
-        ck.enum(p, ["--depth=1", "--kinds=all", "--mode=error"], "d1-all-error", batch=32, deadline_s=40, jobs=J)
-        ck.enum(p, ["--depth=1", "--kinds=all", "--mode=throw"], "d1-all-throw", batch=32, deadline_s=40, jobs=J)
-        ck.enum(p, ["--depth=2", "--kinds=mini", "--mode=error"], "d2-mini-error", batch=32, deadline_s=50, jobs=J)
-        ck.enum(a, ["--depth=1", "--kinds=all", "--mode=error"], "asan-d1-all-error", batch=16, deadline_s=90, jobs=J)
+        ck.enum(p, ["--depth=1", "--kinds=all", "--mode=error"], "d1-all-error", batch=32, deadline_s=40, jobs=J, timeout_ms=400000)
+        ck.enum(p, ["--depth=1", "--kinds=all", "--mode=throw"], "d1-all-throw", batch=32, deadline_s=40, jobs=J, timeout_ms=400000)
+        ck.enum(p, ["--depth=2", "--kinds=mini", "--mode=error"], "d2-mini-error", batch=32, deadline_s=50, jobs=J, timeout_ms=400000)
+        ck.enum(a, ["--depth=1", "--kinds=all", "--mode=error"], "asan-d1-all-error", batch=16, deadline_s=90, jobs=J, timeout_ms=400000)
         ck.enum(p, ["--part=share", "--big=3"], "share-boundary", batch=2, deadline_s=150, jobs=J, timeout_ms=700000)
         ck.enum(a, ["--part=share", "--big=3", "--noclones=1"], "asan-share-boundary", batch=2, deadline_s=150, jobs=J, timeout_ms=700000)
     else:
-        ck.enum(p, ["--depth=2", "--kinds=all", "--mode=error"], "d2-all-error", batch=32, deadline_s=420, jobs=J)
-        ck.enum(p, ["--depth=2", "--kinds=all", "--mode=throw"], "d2-all-throw", batch=32, deadline_s=420, jobs=J)
-        ck.enum(p, ["--depth=3", "--kinds=mini", "--mode=error"], "d3-mini-error", batch=32, deadline_s=300, jobs=J)
-        ck.enum(a, ["--depth=2", "--kinds=core", "--mode=error"], "asan-d2-core-error", batch=16, deadline_s=420, jobs=J)
-        ck.enum(a, ["--depth=1", "--kinds=all", "--mode=throw"], "asan-d1-all-throw", batch=16, deadline_s=120, jobs=J)
+        ck.enum(p, ["--depth=2", "--kinds=all", "--mode=error"], "d2-all-error", batch=32, deadline_s=420, jobs=J, timeout_ms=400000)
+        ck.enum(p, ["--depth=2", "--kinds=all", "--mode=throw"], "d2-all-throw", batch=32, deadline_s=420, jobs=J, timeout_ms=400000)
+        ck.enum(p, ["--depth=3", "--kinds=mini", "--mode=error"], "d3-mini-error", batch=32, deadline_s=300, jobs=J, timeout_ms=400000)
+        ck.enum(a, ["--depth=2", "--kinds=core", "--mode=error"], "asan-d2-core-error", batch=16, deadline_s=420, jobs=J, timeout_ms=400000)
+        ck.enum(a, ["--depth=1", "--kinds=all", "--mode=throw"], "asan-d1-all-throw", batch=16, deadline_s=120, jobs=J, timeout_ms=400000)
         ck.enum(p, ["--part=share", "--big=1"], "share-all", batch=2, deadline_s=300, jobs=J, timeout_ms=700000)
         ck.enum(a, ["--part=share", "--big=2"], "asan-share-boundary", batch=2, deadline_s=200, jobs=J, timeout_ms=700000)
     fix_replays(ck)
@@ -82,7 +82,7 @@ def run(ck):
                              extra={"scenarios_completed": sum(p_.get("counters", {}).get("scenarios_completed", 0) for p_ in ck.parts),
                                     "runs_per_scenario": 3,
                                     "failing_elements_per_key": totals(ck)})
-    cov["distinct_nontrivial"] += cov["scenarios_completed"]
+    cov["distinct_nontrivial"] = min(cov["evaluations"], cov["distinct_nontrivial"] + cov["scenarios_completed"])
     ck.finish(cov, assumptions=ASSUME)
 
 
